@@ -67,6 +67,8 @@ func main() {
 		os.Exit(precompileCmd(os.Args[2:]))
 	case "mcopy":
 		os.Exit(mcopyCmd(os.Args[2:]))
+	case "trace":
+		os.Exit(traceCmd(os.Args[2:]))
 	case "keytree":
 		os.Exit(keytreeCmd(os.Args[2:]))
 	}
